@@ -66,6 +66,37 @@ Proof.
   rewrite E. symmetry. apply name_eqb_neq. intros ->. now rewrite inbox_anycase_INBOX in E.
 Qed.
 
+Lemma first_part_INBOX : first_part INBOX = INBOX.
+Proof. reflexivity. Qed.
+
+Lemma new_name_inl strip n n1 : new_name strip n = inl n1 ->
+  n1 <> INBOX /\ n1 = (if strip then strip1 n else n).
+Proof.
+  unfold new_name. set (m := if strip then strip1 n else n).
+  destruct (is_inbox_anycase (first_part m)) eqn:Ea.
+  - destruct (name_eqb m (first_part m)) eqn:Em; [discriminate|].
+    destruct (name_eqb (first_part m) INBOX) eqn:Ef; [|discriminate].
+    intros [= <-]. split; [|reflexivity]. apply name_eqb_eq in Ef. apply name_eqb_neq in Em. congruence.
+  - intros [= <-]. split; [|reflexivity]. intros E. rewrite E, first_part_INBOX in Ea. discriminate.
+Qed.
+
+Lemma create_name_inl n0 n : create_name n0 = inl n -> n <> INBOX.
+Proof.
+  unfold create_name. destruct (name_eqb (norm n0) INBOX); [discriminate|].
+  intro H. now apply new_name_inl in H.
+Qed.
+
+Lemma rename_dest_inl b0 b : rename_dest b0 = inl b -> b <> INBOX /\ b = norm b0.
+Proof.
+  unfold rename_dest. destruct (name_eqb (norm b0) INBOX); [discriminate|].
+  intro H. apply new_name_inl in H. exact H.
+Qed.
+
+Lemma create_name_inbox n0 : norm n0 = INBOX -> create_name n0 = inr 0%N.
+Proof. unfold create_name. intros ->. now rewrite name_eqb_refl. Qed.
+Lemma rename_dest_inbox n0 : norm n0 = INBOX -> rename_dest n0 = inr 0%N.
+Proof. unfold rename_dest. intros ->. now rewrite name_eqb_refl. Qed.
+
 (* lookup of a mailbox by its (normalised) name *)
 Lemma d_get_norm st n :
   d_get st (norm n) = if name_eqb (norm n) INBOX then Some (d_inbox st) else alookup (norm n) (d_set st).
@@ -413,6 +444,11 @@ Section RenameDict.
   Qed.
 End RenameDict.
 
+Lemma aset_keys_incl' {V} k (v : V) f x : In x (map fst (aset k v f)) -> x = k \/ In x (map fst f).
+Proof.
+  rewrite aset_keys. destruct (amem k f); [now right|]. rewrite in_app_iff. intros [H|[H|[]]]; auto.
+Qed.
+
 Lemma bprefix_b p m : bprefix p m <-> is_prefix name_eqb (split p) (split m) = true.
 Proof.
   rewrite bprefix_split, is_prefix_spec. split.
@@ -432,6 +468,8 @@ Section DictStep.
   Proof.
     destruct o; cbn [dstep]; intro H;
       repeat match goal with
+             | |- context [match create_name ?n with _ => _ end] => destruct (create_name n)
+             | |- context [match rename_dest ?n with _ => _ end] => destruct (rename_dest n)
              | |- context [if ?c then _ else _] => destruct c
              | |- context [match tget ?t ?n with _ => _ end] => destruct (tget t n)
              | |- context [match d_moves ?m ?s with _ => _ end] => destruct (d_moves m s)
@@ -458,7 +496,8 @@ Section DictStep.
     /\ in_closure (dnames st) a /\ ~ in_closure (dnames st) b /\ b <> INBOX.
   Proof.
     intros Hinv Ha. cbn [dstep]. cbv zeta.
-    destruct (name_eqb (norm b0) INBOX) eqn:Eb; [cbn; discriminate|]. apply name_eqb_neq in Eb.
+    destruct (rename_dest b0) as [b'|k] eqn:Erd; [|cbn; discriminate].
+    destruct (rename_dest_inl _ _ Erd) as [Eb ->].
     destruct (tget (d_tree st) (norm a0)) eqn:Eta; [|cbn; discriminate].
     destruct (tget (d_tree st) (norm b0)) eqn:Etb; [cbn; discriminate|].
     rewrite (proj2 (name_eqb_neq _ _) Ha).
@@ -483,7 +522,8 @@ Section DictStep.
     /\ ~ in_closure (dnames st) b /\ b <> INBOX.
   Proof.
     intros Hinv Ha. cbn [dstep]. cbv zeta. rewrite Ha.
-    destruct (name_eqb (norm b0) INBOX) eqn:Eb; [cbn; discriminate|]. apply name_eqb_neq in Eb.
+    destruct (rename_dest b0) as [b'|k] eqn:Erd; [|cbn; discriminate].
+    destruct (rename_dest_inl _ _ Erd) as [Eb ->].
     destruct (tget (d_tree st) INBOX) eqn:Eta; [|cbn; discriminate].
     destruct (tget (d_tree st) (norm b0)) eqn:Etb; [cbn; discriminate|].
     rewrite name_eqb_refl. cbn [fst snd o_cond out_ok out_cond d_set d_inbox]. intros _.
@@ -510,14 +550,14 @@ Section DictStep.
                        alookup k (aset k m s) = Some m) by (intros; rewrite alookup_aset; now rewrite name_eqb_refl).
     destruct o.
     - (* create *)
-      revert Ec. cbn [dstep]. cbv zeta. destruct (name_eqb (norm n) INBOX) eqn:En; [cbn; discriminate|].
-      destruct (amem (norm n) (d_set st)) eqn:Em; [cbn; discriminate|]. intros _.
+      revert Ec. cbn [dstep]. cbv zeta. destruct (create_name n) as [n'|k] eqn:En; [|cbn; discriminate].
+      pose proof (create_name_inl _ _ En) as Hn'.
+      destruct (amem n' (d_set st)) eqn:Em; [cbn; discriminate|]. intros _.
       cbn [fst]. constructor; cbn [with_set d_set d_subs d_inbox d_next].
       + now apply aset_nodup.
-      + rewrite aset_keys, Em. rewrite in_app_iff. intros [H|[H|[]]]; [contradiction|].
-        apply name_eqb_neq in En. congruence.
+      + rewrite aset_keys, Em. rewrite in_app_iff. intros [H|[H|[]]]; [contradiction|congruence].
       + exact NS.
-      + split; [lia|]. intros k m. rewrite alookup_aset. destruct (name_eqb k (norm n)).
+      + split; [lia|]. intros k m. rewrite alookup_aset. destruct (name_eqb k n').
         * intros [= <-]. cbn [m_id fresh]. lia.
         * intro H. apply Ik in H. lia.
     - (* delete *)
@@ -531,47 +571,34 @@ Section DictStep.
         destruct (name_eqb k (norm n)); [discriminate|apply Ik].
     - (* rename *)
       assert (Hinv : dinv st) by (constructor; auto).
-      destruct (name_eq_dec (norm a) INBOX) as [Ea|Ea].
-      + destruct (d_rename_inbox st a b Hinv Ea Ec) as (L1 & L2 & L3 & L4 & L5).
-        revert L1 L2 L3. cbv zeta. set (st' := fst (step st (ORename a b))). intros L1 L2 L3.
-        assert (Es : d_set st' = aset (norm b) (d_inbox st) (d_set st) /\ d_subs st' = d_subs st
-                     /\ d_next st' = (d_next st + 1)%N).
-        { unfold st'. cbn [dstep]. cbv zeta. rewrite Ea.
-          rewrite (proj2 (name_eqb_neq _ _) L5).
-          destruct (tget (d_tree st) INBOX) eqn:E1.
-          2:{ exfalso. revert Ec. cbn [dstep]. cbv zeta. rewrite Ea, (proj2 (name_eqb_neq _ _) L5), E1. cbn. discriminate. }
-          destruct (tget (d_tree st) (norm b)) eqn:E2.
-          { exfalso. revert Ec. cbn [dstep]. cbv zeta. rewrite Ea, (proj2 (name_eqb_neq _ _) L5), E1, E2. cbn. discriminate. }
-          rewrite name_eqb_refl. cbn. auto. }
-        destruct Es as (Es1 & Es2 & Es3). constructor.
-        * rewrite Es1. now apply aset_nodup.
-        * apply alookup_None_notin. rewrite L3 by congruence. now apply alookup_None_notin.
-        * now rewrite Es2.
-        * rewrite L2, Es3. cbn [m_id fresh]. split; [lia|]. intros k m. rewrite Es1, alookup_aset.
-          destruct (name_eqb k (norm b)); [intros [= <-]; lia|intro H; apply Ik in H; lia].
-      + destruct (d_rename_spec st a b Hinv Ea Ec) as (M1 & M2 & M3 & M4 & M5 & M6 & M7 & M8).
-        revert M1 M2 M3 M4 M5. cbv zeta. set (st' := fst (step st (ORename a b))). intros M1 M2 M3 M4 M5.
-        (* recover the structural facts from the loop lemma *)
-        assert (Hta : tget (d_tree st) (norm a) <> None) by (now apply tget_closure).
-        assert (Htb : tget (d_tree st) (norm b) = None).
-        { destruct (tget (d_tree st) (norm b)) eqn:E; [|reflexivity]. exfalso. apply M7. apply tget_closure. congruence. }
-        destruct (rd_moves st (norm a) (norm b) Hinv Ea Hta Htb) as (s' & Es & NDs' & _ & _ & _ & R4).
-        assert (Est : st' = with_set st s').
-        { unfold st'. cbn [dstep]. cbv zeta. rewrite (proj2 (name_eqb_neq _ _) M8).
-          destruct (tget (d_tree st) (norm a)); [|congruence]. rewrite Htb.
-          rewrite (proj2 (name_eqb_neq _ _) Ea), Es. reflexivity. }
-        rewrite Est. constructor; cbn [with_set d_set d_subs d_inbox d_next].
+      revert Ec. cbn [dstep]. cbv zeta.
+      destruct (rename_dest b) as [b'|k] eqn:Erd; [|cbn; discriminate].
+      destruct (rename_dest_inl _ _ Erd) as [Hb' _].
+      destruct (tget (d_tree st) (norm a)) eqn:Eta; [|cbn; discriminate].
+      destruct (tget (d_tree st) b') eqn:Etb; [cbn; discriminate|].
+      destruct (name_eqb (norm a) INBOX) eqn:Ea.
+      + intros _. cbn [fst]. constructor; cbn [with_set d_set d_subs d_inbox d_next].
+        * now apply aset_nodup.
+        * intro H. apply aset_keys_incl' in H as [H|H]; [congruence|contradiction].
+        * exact NS.
+        * cbn [m_id fresh]. split; [lia|]. intros k m. rewrite alookup_aset.
+          destruct (name_eqb k b'); [intros [= <-]; lia|intro H; apply Ik in H; lia].
+      + apply name_eqb_neq in Ea.
+        assert (Hta : tget (d_tree st) (norm a) <> None) by congruence.
+        destruct (rd_moves st (norm a) b' Hinv Ea Hta Etb) as (s' & Es & NDs' & M1 & M2 & M3 & R4).
+        rewrite Es. intros _. cbn [fst with_set]. constructor; cbn [with_set d_set d_subs d_inbox d_next].
         * exact NDs'.
-        * apply alookup_None_notin. rewrite Est in M2, M3. cbn [with_set d_set] in M2, M3.
-          destruct (classic_bprefix (norm b) INBOX) as [Hp|Hp].
-          -- exfalso. now apply (inbox_not_under (norm b) INBOX M8 Hp).
-          -- destruct (classic_bprefix (norm a) INBOX) as [Hq|Hq].
-             ++ exfalso. now apply (inbox_not_under (norm a) INBOX Ea Hq).
-             ++ rewrite M2 by assumption. now apply alookup_None_notin.
+        * apply alookup_None_notin.
+          destruct (classic_bprefix b' INBOX) as [Hp|Hp];
+            [exfalso; now apply (inbox_not_under b' INBOX Hb' Hp)|].
+          destruct (classic_bprefix (norm a) INBOX) as [Hq|Hq];
+            [exfalso; now apply (inbox_not_under (norm a) INBOX Ea Hq)|].
+          rewrite M2 by assumption. now apply alookup_None_notin.
         * exact NS.
         * split; [exact Ii|]. intros k m H. apply R4 in H as (k' & H). now apply Ik in H.
     - (* subscribe *)
-      cbn [dstep fst]. constructor; cbn [with_set d_set d_subs d_inbox d_next]; auto. now apply aset_nodup.
+      cbn [dstep]. destruct (inbox_case_bad (norm n)); [cbn [fst]; constructor; auto|].
+      cbn [fst]. constructor; cbn [with_set d_set d_subs d_inbox d_next]; auto. now apply aset_nodup.
     - cbn [dstep fst]. constructor; cbn [with_set d_set d_subs d_inbox d_next]; auto. now apply aset_nodup.
     - cbn [dstep fst]. constructor; auto.
     - cbn [dstep fst]. constructor; auto.
@@ -608,19 +635,19 @@ Section DictProgram.
   Theorem d_no_exc st o : dinv st -> o_cond (snd (step st o)) <> CExc.
   Proof.
     intros Hinv. destruct o; cbn [dstep]; cbv zeta.
+    - destruct (create_name n) as [n'|k]; [|cbn; discriminate].
+      destruct (amem n' (d_set st)); cbn; discriminate.
     - destruct (name_eqb (norm n) INBOX); [cbn; discriminate|].
       destruct (amem (norm n) (d_set st)); cbn; discriminate.
-    - destruct (name_eqb (norm n) INBOX); [cbn; discriminate|].
-      destruct (amem (norm n) (d_set st)); cbn; discriminate.
-    - destruct (name_eqb (norm b) INBOX); [cbn; discriminate|].
+    - destruct (rename_dest b) as [b'|k]; [|cbn; discriminate].
       destruct (tget (d_tree st) (norm a)) eqn:Eta; [|cbn; discriminate].
-      destruct (tget (d_tree st) (norm b)) eqn:Etb; [cbn; discriminate|].
+      destruct (tget (d_tree st) b') eqn:Etb; [cbn; discriminate|].
       destruct (name_eqb (norm a) INBOX) eqn:Ea; [cbn; discriminate|].
       apply name_eqb_neq in Ea.
       assert (Hta : tget (d_tree st) (norm a) <> None) by congruence.
-      destruct (rd_moves st (norm a) (norm b) Hinv Ea Hta Etb) as (s' & Es & _).
+      destruct (rd_moves st (norm a) b' Hinv Ea Hta Etb) as (s' & Es & _).
       rewrite Es. cbn. discriminate.
-    - cbn. discriminate.
+    - destruct (inbox_case_bad (norm n)); cbn; discriminate.
     - cbn. discriminate.
     - unfold list_out. cbn. discriminate.
     - unfold list_out. cbn. discriminate.
@@ -629,29 +656,31 @@ Section DictProgram.
     - destruct (d_get st (norm n)) as [m|]; [|cbn; discriminate]. destruct (m_ro m); cbn; discriminate.
   Qed.
 
-  (* CREATE *)
+  (* CREATE: [create_name] is the name actually created (INBOX case folding,
+     one trailing delimiter dropped) or the refusal *)
   Theorem d_create_spec st n0 :
-    let n := norm n0 in
     let st' := fst (step st (OCreate n0)) in
     let out := snd (step st (OCreate n0)) in
-    (n = INBOX \/ In n (map fst (d_set st)) -> o_cond out <> COk /\ st' = st)
-    /\ (n <> INBOX -> ~ In n (map fst (d_set st)) ->
-        o_cond out = COk
-        /\ alookup n (d_set st') = Some (fresh uid0 (d_next st))
-        /\ (forall m, m <> n -> alookup m (d_set st') = alookup m (d_set st))
-        /\ d_inbox st' = d_inbox st /\ d_subs st' = d_subs st).
+    (forall k, create_name n0 = inr k -> o_cond out = CNo k /\ st' = st)
+    /\ (forall n, create_name n0 = inl n ->
+         n <> INBOX
+         /\ (In n (map fst (d_set st)) -> o_cond out <> COk /\ st' = st)
+         /\ (~ In n (map fst (d_set st)) ->
+             o_cond out = COk
+             /\ alookup n (d_set st') = Some (fresh uid0 (d_next st))
+             /\ (forall m, m <> n -> alookup m (d_set st') = alookup m (d_set st))
+             /\ d_inbox st' = d_inbox st /\ d_subs st' = d_subs st)).
   Proof.
-    cbv zeta. cbn [dstep]. cbv zeta. split.
-    - intros [->|Hin].
-      + rewrite name_eqb_refl. cbn. split; [discriminate|reflexivity].
-      + destruct (name_eqb (norm n0) INBOX); [cbn; split; [discriminate|reflexivity]|].
-        apply amem_true in Hin. rewrite Hin. cbn. split; [discriminate|reflexivity].
-    - intros Hn Hnin. rewrite (proj2 (name_eqb_neq _ _) Hn).
-      assert (E : amem (norm n0) (d_set st) = false).
-      { destruct (amem (norm n0) (d_set st)) eqn:E; [|reflexivity]. apply amem_true in E. contradiction. }
-      rewrite E. cbn [fst snd o_cond d_set d_inbox d_subs]. repeat split.
-      + rewrite alookup_aset. now rewrite name_eqb_refl.
-      + intros m Hm. rewrite alookup_aset. now rewrite (proj2 (name_eqb_neq _ _) Hm).
+    cbv zeta. cbn [dstep]. split.
+    - intros k ->. cbn. auto.
+    - intros n En. rewrite En. split; [now apply create_name_inl in En|]. split.
+      + intro Hin. apply amem_true in Hin. rewrite Hin. cbn. split; [discriminate|reflexivity].
+      + intro Hnin.
+        assert (E : amem n (d_set st) = false).
+        { destruct (amem n (d_set st)) eqn:E; [|reflexivity]. apply amem_true in E. contradiction. }
+        rewrite E. cbn [fst snd o_cond d_set d_inbox d_subs]. repeat split.
+        * rewrite alookup_aset. now rewrite name_eqb_refl.
+        * intros m Hm. rewrite alookup_aset. now rewrite (proj2 (name_eqb_neq _ _) Hm).
   Qed.
 
   (* DELETE *)
@@ -683,12 +712,14 @@ Section DictProgram.
   (* RENAME is refused when the source is missing, the destination exists
      (as a mailbox or as a superior of one) or is INBOX *)
   Theorem d_rename_refused st a0 b0 :
-    norm b0 = INBOX \/ ~ in_closure (dnames st) (norm a0) \/ in_closure (dnames st) (norm b0) ->
+    (exists k, rename_dest b0 = inr k)
+    \/ ~ in_closure (dnames st) (norm a0) \/ in_closure (dnames st) (norm b0) ->
     o_cond (snd (step st (ORename a0 b0))) <> COk /\ fst (step st (ORename a0 b0)) = st.
   Proof.
     intro H. assert (Hc : o_cond (snd (step st (ORename a0 b0))) <> COk).
-    { cbn [dstep]. cbv zeta. destruct (name_eqb (norm b0) INBOX) eqn:Eb; [cbn; discriminate|].
-      apply name_eqb_neq in Eb. destruct H as [H|[H|H]]; [contradiction| |].
+    { cbn [dstep]. cbv zeta. destruct (rename_dest b0) as [b'|k] eqn:Erd; [|cbn; discriminate].
+      destruct (rename_dest_inl _ _ Erd) as [Eb ->].
+      destruct H as [(k & H)|[H|H]]; [discriminate| |].
       - destruct (tget (d_tree st) (norm a0)) eqn:E; [|cbn; discriminate].
         exfalso. apply H. apply tget_closure. congruence.
       - apply tget_closure in H. destruct (tget (d_tree st) (norm a0)); [|cbn; discriminate].
@@ -719,7 +750,8 @@ Section DictProgram.
   Proof.
     intro Hinv. split; [apply (inv_noinbox _ (d_inv_run prog st Hinv))|].
     intros n0 b0 En o Ho.
-    destruct Ho as [<-|[<-|[<-|[]]]]; cbn [dstep]; cbv zeta; rewrite En, name_eqb_refl; cbn;
+    destruct Ho as [<-|[<-|[<-|[]]]]; cbn [dstep]; cbv zeta;
+      rewrite ?(create_name_inbox _ En), ?(rename_dest_inbox _ En), ?En, ?name_eqb_refl; cbn;
       (split; [discriminate|reflexivity]).
   Qed.
 
@@ -729,15 +761,23 @@ Section DictProgram.
     (forall n, o = OAppend n -> norm n <> INBOX) ->
     d_inbox (fst (step st o)) = d_inbox st.
   Proof.
-    intros Hr Ha. destruct o; cbn [dstep]; cbv zeta;
-      repeat match goal with
-             | |- context [if ?c then _ else _] => destruct c eqn:?
-             | |- context [match tget ?t ?n with _ => _ end] => destruct (tget t n)
-             | |- context [match d_moves ?m ?s with _ => _ end] => destruct (d_moves m s)
-             | |- context [match d_get ?s ?n with _ => _ end] => destruct (d_get s n)
-             end; cbn [fst with_set d_inbox]; try reflexivity.
-    - apply name_eqb_eq in Heqb1. exfalso. now apply (Hr a b eq_refl).
-    - unfold d_append. rewrite norm_anycase. rewrite (proj2 (name_eqb_neq _ _) (Ha n eq_refl)). reflexivity.
+    intros Hr Ha. destruct o; cbn [dstep]; cbv zeta.
+    - destruct (create_name n); [|reflexivity]. destruct (amem n0 (d_set st)); reflexivity.
+    - destruct (name_eqb (norm n) INBOX); [reflexivity|]. destruct (amem (norm n) (d_set st)); reflexivity.
+    - destruct (rename_dest b) as [b'|k]; [|reflexivity].
+      destruct (tget (d_tree st) (norm a)); [|reflexivity].
+      destruct (tget (d_tree st) b'); [reflexivity|].
+      rewrite (proj2 (name_eqb_neq _ _) (Hr a b eq_refl)).
+      destruct (d_moves _ _); reflexivity.
+    - destruct (inbox_case_bad (norm n)); reflexivity.
+    - reflexivity.
+    - reflexivity.
+    - reflexivity.
+    - destruct (d_get st (norm n)); reflexivity.
+    - destruct (d_get st (norm n)); reflexivity.
+    - destruct (d_get st (norm n)) as [m|]; [|reflexivity]. destruct (m_ro m); [reflexivity|].
+      cbn [fst]. unfold d_append. rewrite norm_anycase.
+      rewrite (proj2 (name_eqb_neq _ _) (Ha n eq_refl)). reflexivity.
   Qed.
 
   (* LIST: exactly the closure of the existing names matching the pattern *)
@@ -771,6 +811,7 @@ Section DictProgram.
 
   (* SUBSCRIBE / UNSUBSCRIBE *)
   Theorem d_subscribe_spec st n0 (flag : bool) :
+    (flag = true -> inbox_case_bad (norm n0) = false) ->
     let o := if flag then OSubscribe n0 else OUnsubscribe n0 in
     let st' := fst (step st o) in
     o_cond (snd (step st o)) = COk
@@ -778,7 +819,8 @@ Section DictProgram.
     /\ (forall m, m <> norm n0 -> alookup m (d_subs st') = alookup m (d_subs st))
     /\ d_set st' = d_set st /\ d_inbox st' = d_inbox st.
   Proof.
-    destruct flag; cbn [dstep fst snd d_subs d_set d_inbox o_cond out_ok out_cond]; repeat split;
+    intro Hb. destruct flag; cbn [dstep]; rewrite ?(Hb eq_refl);
+      cbn [fst snd d_subs d_set d_inbox o_cond out_ok out_cond]; repeat split;
       try (rewrite alookup_aset; now rewrite name_eqb_refl);
       intros m Hm; rewrite alookup_aset; now rewrite (proj2 (name_eqb_neq _ _) Hm).
   Qed.
